@@ -321,8 +321,12 @@ impl TransportVisitor for V {
                     let p = per.unwrap_or(4) as usize;
                     let len = [0usize, p - 1 + (p == 1) as usize, p, 2 * p + 1, p + 1][b];
                     let frames: Vec<u8> = (0..len).map(|i| (step as u8) << 4 | (i as u8 & 15)).collect();
-                    let fail_at = deviate(3, "PCM status of one period (default: all OK)");
-                    *tx_mode.borrow_mut() = (false, S_OK);
+                    let fail_at = deviate(4, "PCM status of one period (default: all OK)");
+                    // Device pace: serves each period when notified; or only while the driver
+                    // busy-waits, so that several periods are in the queue at once, oldest first
+                    // or newest first (a device may use buffers in any order).
+                    let pace = deviate(3, "device pace (default: serves when notified)");
+                    *tx_mode.borrow_mut() = (pace != 0, S_OK);
                     let bad = if fail_at == 0 { None } else { Some(fail_at - 1) };
                     // Status injection: the k-th period of this transfer gets IO_ERR.
                     {
@@ -334,7 +338,7 @@ impl TransportVisitor for V {
                             if q == 2 {
                                 if let Some(k) = bad {
                                     let seen = sd2.borrow().xfers.len() - base;
-                                    *txm.borrow_mut() = (false, if seen == k { S_IO_ERR } else { S_OK });
+                                    *txm.borrow_mut() = (pace != 0, if seen == k { S_IO_ERR } else { S_OK });
                                 }
                             }
                             let mut c = co2.borrow_mut();
@@ -342,10 +346,47 @@ impl TransportVisitor for V {
                             c.service(q);
                         })));
                     }
+                    if pace != 0 {
+                        let sd2 = sd.clone();
+                        let co2 = co.clone();
+                        let base = x_before;
+                        crate::mmio::set_spin_handler(Some(Box::new(move |site| {
+                            let mut c = co2.borrow_mut();
+                            c.spins += 1;
+                            c.service_all();
+                            if c.spins % 2 == 0 {
+                                let pick = c.held.get(&2).and_then(|h| if h.is_empty() { None } else { Some(if pace == 2 { h.len() - 1 } else { 0 }) });
+                                if let Some(i) = pick {
+                                    let head = c.held.get(&2).unwrap()[i].head;
+                                    // Which period of this transfer is it?
+                                    let k = sd2.borrow().xfers[base..].iter().rposition(|x| x.2 == head);
+                                    let st = if k.is_some() && k == bad { S_IO_ERR } else { S_OK };
+                                    let mut r = st.to_le_bytes().to_vec();
+                                    r.extend(0u32.to_le_bytes());
+                                    c.complete_held(2, i, &r, 8);
+                                }
+                            }
+                            if c.spins > c.spin_horizon {
+                                if c.livelock.is_none() {
+                                    c.livelock = Some(format!("busy-wait site {} exceeded {} iterations", site, c.spin_horizon));
+                                }
+                                panic!("LAB-LIVELOCK: busy-wait site {} exceeded the horizon", site);
+                            }
+                        })));
+                    }
                     let r = crate::util::catch(|| snd.pcm_xfer(0, &frames));
                     cosim::install(&co);
+                    if co.borrow_mut().held_count(2) != 0 && nb.is_empty() {
+                        // Not a C20 clause by itself, but everything below assumes an empty queue.
+                        tag("snd:pcm_xfer-left-buffers-queued");
+                        while co.borrow_mut().held_count(2) != 0 {
+                            let mut r = S_OK.to_le_bytes().to_vec();
+                            r.extend(0u32.to_le_bytes());
+                            co.borrow_mut().complete_held(2, 0, &r, 8);
+                        }
+                    }
                     tag("snd:pcm_xfer");
-                    tlog!("step {}: pcm_xfer(0, {} bytes) period {:?} fail {:?} -> {:?}", step, len, per, bad, r);
+                    tlog!("step {}: pcm_xfer(0, {} bytes) period {:?} fail {:?} pace {} -> {:?}", step, len, per, bad, pace, r);
                     let s = sd.borrow();
                     let new = &s.xfers[x_before..];
                     match per {
